@@ -1851,6 +1851,16 @@ def make_nt(tname, values):
 NT_DEFAULTS = {}    # named-tuple type name -> {field: default term}
 
 
+def reduce_subscript(b, i):
+    """value of b[i] for a comprehension-built dict b, as SymEx.subscript computes it (no heap): {k: f(k, v) for k, v in D.items()}[i] == f(i, D[i])"""
+    class _St:
+        heap = {}
+
+    class _Sx:
+        subscript = SymEx.subscript
+    return _Sx().subscript(b, i, _St)
+
+
 def _literal_rows(it):
     """the rows of a literal table, however it is traversed: TABLE.items() / .values() / .keys() / TABLE itself, enumerate(ROWS), zip(ROWS, ROWS)"""
     if it[0] == 'call' and it[1] in (('meth', 'items'), ('meth', 'values'), ('meth', 'keys')) and len(it[2]) == 1 and it[2][0][0] == 'dict' and \
